@@ -29,6 +29,9 @@ def scenarios(pid, thorough):
             for mix in (['dying'], ['apply', 'dying']):
                 out.append(dict(kind='close_join', threads=True, procs=procs, quota=0, mix=mix, when='now',
                                 njobs=2, dur=0.05))
+        # close() while the supervisor is half-way through replacing four recycled workers
+        out.append(dict(kind='close_join', refill=True, threads=True, procs=4, quota=0, mix=['apply'],
+                        when='refill', njobs=4, dur=0.05))
         # a job over the pool's hard time limit while close() / join() drain
         for threads in (True, False):
             out.append(dict(kind='close_join', threads=threads, procs=2, quota=0, mix=['apply', 'overlimit'],
